@@ -299,3 +299,34 @@ FUNCS.update({'awaited': awaited, 'clip_sum': clip_sum, 'sqrt_of': sqrt_of,
 FUNCS.pop('nu_rt')
 _item_old = FUNCS['item']
 FUNCS['item'] = lambda a: ApproxFloat(_item_old(a))
+
+
+# ---- distributed / assignment view at run time (single process unless a multi-rank harness sets H.world)
+H.rank, H.world, H.trace_log = 0, 1, []
+
+
+def _members(group):
+    return getattr(group, 'ranks', None) if group is not None else range(H.world)
+
+
+FUNCS.update({
+    'my_rank': lambda: H.rank,
+    'world_size': lambda: H.world,
+    'in_group': lambda g: True if g is None else (H.rank in _members(g)),
+    'rank_in_group': lambda r, g: (0 <= r < H.world) if g is None else (r in _members(g)),
+    'group_size': lambda g: H.world if g is None else len(list(_members(g))),
+    'trace': lambda: list(H.trace_log),
+    'is_fresh': lambda x: True,
+    'wa_inv_worker': lambda a, l, f: a.inv_worker(l, f),
+    'wa_is_grad_worker': lambda a, l: a.is_grad_worker(l),
+    'wa_src_grad_worker': lambda a, l: a.src_grad_worker(l),
+    'wa_factor_group': lambda a, l, f: a.factor_group(l, f),
+    'wa_worker_group': lambda a, l: a.grad_worker_group(l),
+    'wa_receiver_group': lambda a, l: a.grad_receiver_group(l),
+    'wa_broadcast_gradients': lambda a: a.broadcast_gradients(),
+    'wa_broadcast_inverses': lambda a: a.broadcast_inverses(),
+    'helper_a_factor': lambda h, v, sh: MatVal(h.get_a_factor(_m(v).reshape(tuple(sh)))),
+    'helper_g_factor': lambda h, v, sh: MatVal(h.get_g_factor(_m(v).reshape(tuple(sh)))),
+    'combined_grad': lambda h: MatVal(h.get_grad()),
+    'bytes_of': lambda t: 0 if t is None else t.nelement() * t.element_size(),
+})
